@@ -413,7 +413,7 @@ func runTHRESH(c *Ctx) {
 	for fn := range per {
 		fns = append(fns, fn)
 	}
-	sort.Slice(fns, func(i, j int) bool { return fns[i].Pos() < fns[j].Pos() })
+	sort.Slice(fns, func(i, j int) bool { return ir.PosLess(fns[i].Pos(), fns[j].Pos()) })
 	for _, fn := range fns {
 		s := per[fn]
 		pos := P.Pos(fn.Pos())
@@ -914,7 +914,7 @@ func runTRIPLE(c *Ctx) {
 	}
 	sort.Slice(ks, func(i, j int) bool {
 		if ks[i].fn.Pos() != ks[j].fn.Pos() {
-			return ks[i].fn.Pos() < ks[j].fn.Pos()
+			return ir.PosLess(ks[i].fn.Pos(), ks[j].fn.Pos())
 		}
 		return ks[i].base < ks[j].base
 	})
@@ -968,7 +968,7 @@ func runTRIPLE(c *Ctx) {
 	}
 	sort.Slice(bks, func(i, j int) bool {
 		ii, jj := firstInstr(blk[bks[i]]), firstInstr(blk[bks[j]])
-		return ii.Pos() < jj.Pos()
+		return ir.PosLess(ii.Pos(), jj.Pos())
 	})
 	for _, k := range bks {
 		m := blk[k]
@@ -988,7 +988,7 @@ func runTRIPLE(c *Ctx) {
 	for k := range elem {
 		es = append(es, k)
 	}
-	sort.Slice(es, func(i, j int) bool { return es[i].fn.Pos() < es[j].fn.Pos() })
+	sort.Slice(es, func(i, j int) bool { return ir.PosLess(es[i].fn.Pos(), es[j].fn.Pos()) })
 	for _, k := range es {
 		m := elem[k]
 		if m["Key"] == nil {
@@ -1008,7 +1008,7 @@ var _ = types.Typ
 func firstInstr(m map[string]ssa.Instruction) ssa.Instruction {
 	var best ssa.Instruction
 	for _, i := range m {
-		if best == nil || i.Pos() < best.Pos() {
+		if best == nil || ir.PosLess(i.Pos(), best.Pos()) {
 			best = i
 		}
 	}
